@@ -78,7 +78,7 @@ func TestPropConcurrent(t *testing.T) {
 					if w == 0 {
 						kinds = []string{"rootSwap", "rootSwap", "rootSwap", "nodeWrite", "pause"}
 					} else {
-						kinds = []string{"readRoot", "readRoot", "readRoot", "read", "nodeWrite"}
+						kinds = []string{"readRoot", "readRoot", "readRoot", "read", "nodeWrite", "verify", "edgeWrite"}
 					}
 				}
 				o.kind = rapid.SampledFrom(kinds).Draw(t, "kind")
